@@ -1,7 +1,7 @@
 (* C18 — synthesised noise has the prescribed spectrum (statements only).
    PARTIAL: the "within about 1 dB of f^-alpha" fit is an approximation statement, swept analytically (closed-form section responses). *)
 From Coq Require Import ZArith List Reals.
-From SK Require Import Arith NoiseSpec.
+From SK Require Import Arith NoiseSpec DetrendPoly Systems Idft.
 Theorem C18_hermitian_construction : forall (C : Type) (conj realpart : C -> C) (mulc : C -> C -> C),
   (forall z, conj (conj z) = z) -> (forall z, conj (realpart z) = realpart z) ->
   forall N F rot k, (2 <= N)%Z -> (0 < k < N)%Z -> herm C conj realpart mulc N F rot (N - k) = conj (herm C conj realpart mulc N F rot k).
@@ -22,5 +22,19 @@ Theorem C18_section_response : forall a0 a1 b1 w, (1 + b1 * b1 - 2 * b1 * cos w 
   (((a0 + a1 * cos w) * (a0 + a1 * cos w) + (a1 * sin w) * (a1 * sin w)) / ((1 - b1 * cos w) * (1 - b1 * cos w) + (b1 * sin w) * (b1 * sin w))
    = sec_mag2 a0 a1 b1 w)%R.
 Proof. exact sec_mag2_is_response. Qed.
+(* the inverse DFT of the constructed spectrum is exactly real for every length and every sample index: `.real` discards nothing *)
+Theorem C18_ifft_of_constructed_spectrum_is_real : forall (N : nat) (F rot : Z -> C) (n : nat), (2 <= N)%nat ->
+  Sum N (im_term N n (fun k => fst (hermC (Z.of_nat N) F rot (Z.of_nat k))) (fun k => snd (hermC (Z.of_nat N) F rot (Z.of_nat k)))) = 0%R.
+Proof. exact fftnoise_ifft_is_real. Qed.
+Theorem C18_idft_of_hermitian_is_real : forall (N n : nat) (re im : nat -> R), (1 <= N)%nat ->
+  (forall k, (0 < k < N)%nat -> re (N - k)%nat = re k) -> (forall k, (0 < k < N)%nat -> im (N - k)%nat = (- im k)%R) -> im 0%nat = 0%R ->
+  Sum N (im_term N n re im) = 0%R.
+Proof. exact idft_of_hermitian_is_real. Qed.
+(* magnitudes are the prescribed ones: unit-modulus phases and the mirror keep |F_k| *)
+Theorem C18_magnitudes_preserved : forall (N : Z) (F rot : Z -> C) (k : Z), (2 <= N)%Z -> (forall j, cabs2 (rot j) = 1%R) ->
+  ((1 <= k <= Np N)%Z -> cabs2 (hermC N F rot k) = cabs2 (F k)) /\
+  ((N - Np N <= k <= N - 1)%Z -> cabs2 (hermC N F rot k) = cabs2 (F (N - k)%Z)).
+Proof. exact fftnoise_magnitudes. Qed.
 Print Assumptions C18_hermitian_construction.
+Print Assumptions C18_ifft_of_constructed_spectrum_is_real.
 Print Assumptions C18_section_gains.
